@@ -41,6 +41,9 @@ RULE = (
     "(b3) one cache fed by paths that extend_path() different pre-states (different inherited constraints, optional slice, the same "
     "hash-consed body conditions, second body condition through branch()/activate()): tracked ids == all condition ids and cache-on == "
     "cache-off == z3 per query; "
+    "(b4) a scripted solver front-end (vlib/stub_solver.py) whose first unsat reply carries an empty core `()`, no core line, or a core "
+    "with an error line, followed by satisfiable queries answered by real z3: nothing degenerate is stored and no later query is "
+    "answered from the cache; "
     "(c) a directed sweep (shapes of freed/unsat condition x shapes of new condition x number of intervening allocations) for a "
     "*top-level* condition that gets the ast id of a freed one, then the real pipeline is run on each recipe found. "
     "A case is distinct by its text / history digest / recipe."
@@ -358,7 +361,9 @@ def correspond(ctx):
             exp = ",".join(r[1] for r in rec) + " # " + (";".join(",".join(c) or "e" for c in final) or "-")
             # when the cache answered, the solver was not asked with cache on: its core is unknown; such histories are replayed
             # only if every cache hit was for a query the cache-off solver also found unsat
-            if all(not (r[1] == "unsat" and r[3] is None and r[2] != "unsat") for r in rec) and all(len(i) > 0 for i, *_ in rec):
+            if any(r[1] not in DEF or r[2] not in DEF for r in rec):
+                ctx.count("solver-timing:history-not-replayed-on-model")   # a run without a verdict cannot be replayed deterministically
+            elif all(not (r[1] == "unsat" and r[3] is None and r[2] != "unsat") for r in rec) and all(len(i) > 0 for i, *_ in rec):
                 hits = [r for r in rec if r[1] == "unsat" and r[3] is None]
                 reqs.append(("run " + "|".join(items), exp, f"run[{tag}]")) if not hits or all(r[4] == [] for r in hits) else None
         ctx.case(f"hist|{tag}|{solver_name}|{retain}|{[(r[0], r[1]) for r in rec]}", nontrivial=any(r[1] == "unsat" for r in rec))
@@ -594,6 +599,46 @@ def correspond(ctx):
         on.close()
         off.close()
         del kept, pres
+
+    # =============================================================== (b4) degenerate cores from the solver / front-end
+    # The first unsat reply of a function carries an empty core `()` (what z3 prints when no assertion is named, or a front-end that
+    # strips :named), no core line at all, or a core with an error line; the following satisfiable queries must still reach the solver.
+    from vlib.stub_solver import Script
+
+    for di, (core_kind, extra) in enumerate([("empty", {}), ("empty", {"error_line": True}), ("none", {}), ("all", {"error_line": True})]):
+        with Script(tmp / f"stub{di}") as st:
+            st.rule(dict(path=1), reply="unsat", core=core_kind, **extra)
+            st.default(reply="real", real=[z3bin])
+            st.write()
+            on = Pipeline(eng, True, st.command)
+            kept = []
+            p1 = Path(mk_solver(eng.base_args))
+            p1.append(z3.ULT(x, z3.BitVecVal(5, 256)))
+            p1.append(z3.UGT(x, z3.BitVecVal(10, 256)))
+            v1, ids1, core1, new1 = on.query(p1)
+            kept.append(p1)
+            ctx.count(f"degenerate-core:{core_kind}:first={v1}:parsed={'none' if core1 is None else len(core1)}:stored={len(new1)}")
+            if core1 == [] and new1:
+                ctx.violation("unsat-core-cache:empty-core-stored",
+                              f"the solver answered `unsat` with the core `()`; the callback stored {new1}: check_unsat_cores is then vacuously true for "
+                              f"every later query of the function", {"kind": "degenerate-core", "core": core_kind})
+            for qi in range(ctx.scale(4, 12)):
+                pq = Path(mk_solver(eng.base_args))
+                c = rng.randrange(20, 10**6)
+                for cnd in rng.sample([z3.ULT(x, z3.BitVecVal(c, 256)), z3.UGT(y, z3.BitVecVal(c, 256)), x == y + 1, z3.ULT(z, x), y == z3.BitVecVal(c, 256)], rng.randrange(1, 4)):
+                    pq.append(cnd)
+                t = truth(list(pq.conditions))
+                vq, idsq, _, _ = on.query(pq)
+                kept.append(pq)
+                ctx.case(f"degenerate|{core_kind}|{extra}|{qi}|{idsq}")
+                ctx.count(f"degenerate-core:{core_kind}:later:on={vq}:truth={t}")
+                if vq == "unsat" and t == "sat":
+                    ctx.violation("unsat-core-cache:degenerate-core:verdict-flipped",
+                                  f"after an `unsat` reply with core kind {core_kind!r}{' + error line' if extra else ''} (stored cores {on.fctx.solving_ctx.unsat_cores}), "
+                                  f"the satisfiable query {[str(k)[:50] for k in pq.conditions]} is answered unsat from the cache",
+                                  {"kind": "degenerate-core", "core": core_kind})
+            on.close()
+            del kept
 
     # =============================================================== (c) directed search for a recycled top-level id
     shapesA = {
